@@ -13,6 +13,7 @@ class Report:
         self.seed = seed
         self.t0 = time.time()
         self.obligations = []   # dicts
+        self._by_key = {}
         self.functions = set()
         self.rules = {}
         self.assumptions = []
@@ -33,11 +34,19 @@ class Report:
             self.functions.add(fname)
         if site is None and hasattr(fn, 'span'):
             site = fn.span
-        self.obligations.append({
-            'rule': rule, 'fn': fname, 'construct': construct, 'ok': bool(ok),
-            'detail': detail, 'site': site,
-            'key': '%s|%s|%s|%s' % (self.pid, rule, fname, construct),
-        })
+        key = '%s|%s|%s|%s' % (self.pid, rule, fname, construct)
+        prev = self._by_key.get(key)
+        if prev is not None:
+            # same program construct judged along another path: conjunction
+            prev['paths'] += 1
+            if prev['ok'] and not ok:
+                prev['ok'] = False
+                prev['detail'] = detail
+            return bool(ok)
+        o = {'rule': rule, 'fn': fname, 'construct': construct, 'ok': bool(ok),
+             'detail': detail, 'site': site, 'key': key, 'paths': 1}
+        self._by_key[key] = o
+        self.obligations.append(o)
         return bool(ok)
 
     def fail_closed(self, rule, what):
@@ -91,6 +100,7 @@ class Report:
         cov = {
             'explanation': explanation,
             'obligations': n,
+            'path_judgements': sum(o.get('paths', 1) for o in self.obligations),
             'discharged': discharged,
             'evaluations': n,
             'distinct_nontrivial': distinct,
